@@ -46,6 +46,7 @@ type GhostVar struct {
 }
 
 type AtCall struct {
+	After   bool   // run after the call with res0, res1, ... bound to its results
 	Callee  string // callee name as written in source, e.g. "dailyOutputConfig.WriteLine"
 	Ordinal int    // 0 = every call
 	Stmt    string // ghost statement text: "x++", "x = e"
@@ -399,9 +400,10 @@ func (cs *ContractSet) parseFile(path, pkgdir string) error {
 				return fail(l, "var NAME SORT")
 			}
 			cur.Vars = append(cur.Vars, GhostVar{f[0], f[1]})
-		case strings.HasPrefix(t, "at call "):
+		case strings.HasPrefix(t, "at call "), strings.HasPrefix(t, "after call "):
 			// at call NAME[#n]: ghost LHS = EXPR
-			rest := strings.TrimPrefix(t, "at call ")
+			isAfter := strings.HasPrefix(t, "after call ")
+			rest := strings.TrimPrefix(strings.TrimPrefix(t, "at call "), "after call ")
 			i := strings.Index(rest, ":")
 			if i < 0 {
 				return fail(l, "at call NAME: ghost x = e")
@@ -422,7 +424,7 @@ func (cs *ContractSet) parseFile(path, pkgdir string) error {
 			if err != nil {
 				return fail(l, "%v", err)
 			}
-			cur.AtCalls = append(cur.AtCalls, &AtCall{Callee: callee, Ordinal: ord, Stmt: stmt, LHS: strings.TrimSpace(stmt[:eq]), RHS: rhs})
+			cur.AtCalls = append(cur.AtCalls, &AtCall{After: isAfter, Callee: callee, Ordinal: ord, Stmt: stmt, LHS: strings.TrimSpace(stmt[:eq]), RHS: rhs})
 		case strings.HasPrefix(t, "decreases "):
 			if curLoop == nil {
 				return fail(l, "decreases outside loop")
